@@ -80,6 +80,16 @@ def _gen_exec(args: Tuple[str, str, str, int]) -> Dict[str, Any]:
     return r
 
 
+def _exec_explicit(args: Tuple[str, int, Dict[str, Any]]) -> Dict[str, Any]:
+    engine_name, idx, plan = args
+    engine = importlib.import_module(engine_name)
+    r = engine.execute(plan)
+    r["seed"] = idx
+    r["plan"] = plan if r["violation"] else None
+    r["sample"] = plan
+    return r
+
+
 def exec_plans(engine_name: str, plans: List[Dict[str, Any]], timeout: float) -> List[Any]:
     """Execute each plan in its own fresh child; returns result dicts or
     {"harness": status, "value": ...} in plan order."""
@@ -280,7 +290,17 @@ def run_check(engine_name: str, argv: Optional[List[str]] = None) -> int:
         t_ph = time.monotonic()
         stop = lambda: (time.monotonic() - t_ph) > cap  # noqa: E731
         seeds = [core.derive(args.seed, prop, ph["name"], i) for i in range(runs)]
-        if ph.get("heavy"):
+        if ph.get("explicit"):
+            # a fixed list of plans (deterministic probes of recorded findings)
+            plans = engine.explicit_plans(args.tier, ph["name"])
+            items = [(engine_name, i, p) for i, p in enumerate(plans)]
+            runs = len(items)
+            for _, item, status, value in core.fork_map(_exec_explicit, items, core.ncpu(), ph["timeout"], stop):
+                if status == "ok":
+                    agg.add(value, ph["name"])
+                else:
+                    agg.harness.append(f"{ph['name']} plan#{item[1]} {status}: {value}")
+        elif ph.get("heavy"):
             items = [(engine_name, args.tier, ph["name"], s) for s in seeds]
             for _, item, status, value in core.fork_map(
                 _gen_exec, items, core.ncpu(), ph["timeout"], stop
